@@ -2,6 +2,7 @@ package main
 
 import (
 	"fmt"
+	"go/constant"
 	"go/token"
 	"go/types"
 	"sort"
@@ -305,6 +306,27 @@ func ruleBuffersRefetched(c *Check, p *Program, rule string, owners ...string) {
 		if len(fl) == 0 {
 			c.Fail(rule, owner+".init#block-buffers-refetched", p.Pos(initFn.Pos()), "block-sized buffers are re-fetched at frame start", "no field of "+owner+" is assigned from BlockSizeIndex.Get (confirmed by reading: one per object)")
 			continue
+		}
+		// the size that dimensions the buffer is the one of the frame being started: in a dedicated init method the
+		// block-size code is read only after the call that starts the frame (InitW may rewrite it for legacy
+		// frames, ParseHeaders reads it from the stream)
+		if initFn.Name() == "init" {
+			starts := func(in ssa.Instruction) bool {
+				ci, ok := in.(ssa.CallInstruction)
+				if !ok {
+					return false
+				}
+				isStart := func(x ssa.CallInstruction) bool {
+					return calleeIs(x, pkgStream, "Frame.InitW") || calleeIs(x, pkgStream, "Frame.ParseHeaders")
+				}
+				return isStart(ci) || callReaches(ci, isStart)
+			}
+			readsSize := func(in ssa.Instruction) bool {
+				ci, ok := in.(ssa.CallInstruction)
+				return ok && calleeIs(ci, pkgStream, "DescriptorFlags.BlockSizeIndex")
+			}
+			early, _ := reachAvoid(initFn, nil, readsSize, starts)
+			c.Cond(!early, rule, owner+".init#size-of-this-frame", p.Pos(initFn.Pos()), "the block-size code that dimensions the buffers is read after the frame has been started (InitW / ParseHeaders), so it is the code of this frame", "every path to the read passes the frame start", "the block-size code is read before the frame is started: for a legacy frame (8 MiB blocks) or after Reset the buffer is sized from a stale code and blocks are cut at the wrong size")
 		}
 		for _, f := range fl {
 			f := f
@@ -678,6 +700,17 @@ func ruleContentHashDiscipline(c *Check, p *Program, rule string) {
 				if isW {
 					nW++
 					_, ok := hashFeeders[name]
+					if !ok {
+						// a helper all of whose callers are listed feeders
+						ctxs := anchorContexts(f, 2)
+						all := len(ctxs) > 0
+						for _, g := range ctxs {
+							if _, listed := hashFeeders[shortFn(g)]; !listed || g == f {
+								all = false
+							}
+						}
+						ok = all
+					}
 					if !ok && initRFamily[f] {
 						// the collector is the goroutine of the read pipeline that receives from the ordered
 						// queue (a range over a channel of channels)
@@ -1362,4 +1395,806 @@ func ruleNoEmptyBlock(c *Check, p *Program, rule string, owner string) {
 		check(args[2], cs, atomsOfBlock(cs.Block()), 0)
 	}
 	c.Cond(len(sites) >= 1 && n >= want, rule, "Compress#source-slices", p.Pos(comp.Pos()), "the sources handed to the block compressor were resolved", fmt.Sprintf("%d call sites, %d prefix slices examined", len(sites), n), fmt.Sprintf("only %d call sites of FrameDataBlock.Compress and %d prefix slices found (expected at least %d of each)", len(sites), n, want))
+}
+
+// ---------------------------------------------------------------------------
+// Round 4.
+//
+// R02.13 / R17.12: the accumulation buffer is consumed exactly once, in call order.
+//  (a) after the pending bytes w.data[:w.idx] (or the full buffer) have been handed to Writer.write successfully,
+//      every path to a return, to the next hand-over or back to the accumulation copy resets w.idx to 0
+//      (otherwise the same bytes are emitted again);
+//  (b) in ReadFrom every path to the first read of the source passes Flush or init (bytes buffered by earlier
+//      Write calls precede what ReadFrom reads).
+
+func rulePendingConsumedOnce(c *Check, p *Program, rule string) {
+	n := 0
+	for _, fn := range moduleFuncs(p, pkgRoot) {
+		if recvTypeName(fn) != "Writer" || fn.Parent() != nil {
+			continue
+		}
+		for _, ci := range callsIn(fn) {
+			if !calleeIs(ci, pkgRoot, "Writer.write") {
+				continue
+			}
+			call, isCall := ci.(*ssa.Call)
+			if !isCall || len(call.Call.Args) < 2 {
+				continue
+			}
+			if !derivesFromField(call.Call.Args[1], "Writer.data") && loadField(call.Call.Args[1]) != "Writer.data" {
+				continue // a caller's buffer or a private block buffer (ReadFrom): nothing pending is consumed
+			}
+			n++
+			c.Sites++
+			isReset := func(in ssa.Instruction) bool {
+				st, ok := in.(*ssa.Store)
+				if !ok || lastField(st.Addr) != "Writer.idx" {
+					return false
+				}
+				k, isK := constUint(st.Val)
+				return isK && k == 0
+			}
+			// paths on which the hand-over failed return its error: they do not count
+			failed := func(b *ssa.BasicBlock) bool {
+				for _, a := range atomsOfBlockLocal(b) {
+					if a.Kind == "errnil" && !a.Val && (a.V == ssa.Value(call) || derivesFromValue(a.V, call)) {
+						return true
+					}
+				}
+				return false
+			}
+			stop := func(in ssa.Instruction) bool {
+				if isReturn(in) {
+					return !failed(in.Block())
+				}
+				if cj, ok := in.(ssa.CallInstruction); ok && cj != ci && calleeIs(cj, pkgRoot, "Writer.write") {
+					return true
+				}
+				if cc, ok := isBuiltinCall(in, "copy"); ok && len(cc.Args) == 2 && derivesFromField(cc.Args[0], "Writer.data") {
+					return true
+				}
+				return false
+			}
+			miss, trail := reachAvoid(fn, ci.(ssa.Instruction), stop, isReset)
+			where := "a return or the next hand-over"
+			if len(trail) > 0 {
+				where = trail[len(trail)-1]
+			}
+			c.Cond(!miss, rule, shortFn(fn)+"#pending-reset-after-handover", p.InstrPos(ci), "once the accumulated bytes have been handed to the block writer, w.idx is reset to 0 before the function returns, hands over again, or accumulates again", "every success path passes w.idx = 0", "after the hand-over "+where+" is reachable with w.idx unchanged: the same bytes are emitted a second time by the next Flush, Write or Close")
+		}
+	}
+	c.Cond(n >= 2, rule, "Writer#pending-handover-sites", "", "the hand-over sites of the accumulation buffer were found (Write: buffer full; Flush: pending bytes)", fmt.Sprintf("%d sites", n), fmt.Sprintf("only %d calls of Writer.write with the accumulation buffer found (expected 2)", n))
+	// (b)
+	rf := findFn(c, p, rule, "", "Writer.ReadFrom")
+	if rf == nil {
+		return
+	}
+	isSrcRead := func(in ssa.Instruction) bool {
+		ci, ok := in.(ssa.CallInstruction)
+		if !ok {
+			return false
+		}
+		if !(calleeIs(ci, "io", "ReadFull") || calleeIs(ci, "io", "ReadAtLeast")) {
+			// a helper that performs the read
+			return callReaches(ci, func(x ssa.CallInstruction) bool { return calleeIs(x, "io", "ReadFull") || calleeIs(x, "io", "ReadAtLeast") }) && !calleeIs(ci, pkgRoot, "Writer.Flush") && !calleeIs(ci, pkgRoot, "Writer.init")
+		}
+		return true
+	}
+	isFlushOrInit := func(in ssa.Instruction) bool {
+		ci, ok := in.(ssa.CallInstruction)
+		if !ok {
+			return false
+		}
+		return callReaches(ci, func(x ssa.CallInstruction) bool {
+			return calleeIs(x, pkgRoot, "Writer.Flush") || calleeIs(x, pkgRoot, "Writer.init")
+		}) || calleeIs(ci, pkgRoot, "Writer.Flush") || calleeIs(ci, pkgRoot, "Writer.init")
+	}
+	skip, _ := reachAvoid(rf, nil, isSrcRead, isFlushOrInit)
+	c.Cond(!skip, rule, "Writer.ReadFrom#pending-goes-first", p.Pos(rf.Pos()), "bytes buffered by earlier Write calls are flushed before ReadFrom compresses what it reads (data is emitted in call order)", "every path to the source read passes Flush or the first-use init", "the source is read on a path that neither flushes pending bytes nor initialises the Writer: bytes of an earlier short Write are emitted after those of ReadFrom")
+}
+
+// R14.12: block boundaries do not depend on how the source fragments its reads: the write side reads the source
+// into the block buffer with io.ReadFull (a short count only at the end of the source).
+func ruleFullBlockReads(c *Check, p *Program, rule string) {
+	n := 0
+	for _, rs := range sourceReadSites(p) {
+		if rs.role != "uncompressed input (write side)" {
+			continue
+		}
+		n++
+		c.Sites++
+		ok := rs.prim == "io.ReadFull"
+		if rs.prim == "io.ReadAtLeast" {
+			// equivalent when the minimum is the length of the buffer
+			a := rs.call.Common().Args
+			if len(a) == 3 {
+				if call, isC := a[2].(*ssa.Call); isC {
+					if bi, isB := call.Call.Value.(*ssa.Builtin); isB && bi.Name() == "len" && call.Call.Args[0] == a[1] {
+						ok = true
+					}
+				}
+			}
+		}
+		c.Cond(ok, rule, shortFn(rs.fn)+"#fills-whole-blocks", p.InstrPos(rs.call), "the source is read until the block buffer is full (io.ReadFull): where a block ends depends on the data only, not on how the source splits its reads", rs.prim, rs.prim+" returns as soon as some bytes are available: every short read of the source closes a block, so the same stream yields different frames")
+	}
+	c.Cond(n >= 2, rule, "write-side#source-reads", "", "the reads of uncompressed input were found (Writer.ReadFrom, CompressingReader.Read)", fmt.Sprintf("%d sites", n), fmt.Sprintf("only %d reads of uncompressed input found (expected 2)", n))
+}
+
+// R05.11 / R19.7: who may parse a header. Frame.ParseHeaders marks the frame as "header read" before it validates the
+// descriptor, so a caller that drops its error leaves a frame that later code takes for validated. It is called only by
+// the Reader's first-use init (whose error latches the Reader) and by ValidFrameHeader on a private frame, which
+// hands the whole input to it.
+func ruleHeaderParsers(c *Check, p *Program, rule string) {
+	ph := findFn(c, p, rule, "internal/lz4stream", "Frame.ParseHeaders")
+	if ph == nil {
+		return
+	}
+	n := 0
+	for _, fn := range moduleFuncs(p, pkgRoot, pkgStream) {
+		for _, g := range withAnon(fn) {
+			for _, ci := range callsIn(g) {
+				if !calleeIs(ci, pkgStream, "Frame.ParseHeaders") {
+					continue
+				}
+				n++
+				c.Sites++
+				okC := false
+				var names []string
+				for _, ctx := range anchorContexts(g, 2) {
+					nm := shortFn(ctx)
+					names = append(names, nm)
+					if nm == "Reader.init" || nm == "ValidFrameHeader" {
+						okC = true
+					} else {
+						okC = false
+						break
+					}
+				}
+				// merged init: a Reader method that performs the newState transition itself
+				if !okC && recvTypeName(g) == "Reader" {
+					if miss, _ := reachAvoid(g, ci.(ssa.Instruction), isReturn, func(in ssa.Instruction) bool {
+						cj, ok := in.(ssa.CallInstruction)
+						return ok && (calleeIs(cj, pkgRoot, "_State.next") || callReaches(cj, func(x ssa.CallInstruction) bool { return calleeIs(x, pkgRoot, "_State.next") }))
+					}); !miss {
+						okC = true
+					}
+				}
+				c.Cond(okC, rule, "ParseHeaders#called-from:"+shortFn(g), p.InstrPos(ci), "the frame header is parsed by the Reader's first-use initialisation (its error latches the Reader) or by ValidFrameHeader on a private frame; nowhere else", strings.Join(names, ", "), shortFn(g)+" parses the header: ParseHeaders marks the frame as read before validating it, so an error dropped here is never reported and the unverified descriptor is used")
+				if shortFn(g) == "ValidFrameHeader" {
+					// the whole input goes to the parser
+					whole := false
+					if mi, isMI := ci.Common().Args[1].(*ssa.MakeInterface); isMI {
+						if nr, isNR := mi.X.(*ssa.Call); isNR && calleeIs(nr, "bytes", "NewReader") {
+							_, whole = nr.Call.Args[0].(*ssa.Parameter)
+						}
+					}
+					c.Cond(whole, rule, "ValidFrameHeader#whole-input", p.InstrPos(ci), "ValidFrameHeader hands its input unchanged to the header parser (a cut input loses the check byte of headers with a content size)", "bytes.NewReader(in) with in the parameter", "the parser does not receive the parameter itself: the header may be truncated or altered before it is judged")
+				}
+			}
+		}
+	}
+	c.Cond(n >= 2, rule, "ParseHeaders#call-sites", "", "the call sites of Frame.ParseHeaders were found", fmt.Sprintf("%d sites", n), fmt.Sprintf("only %d call sites found (expected Reader.init and ValidFrameHeader)", n))
+}
+
+// R06.7 / R02.14: the synthetic descriptor of a legacy frame declares nothing but the block size: in the legacy
+// branch of the descriptor parser the only setter called is BlockSizeIndexSet. (An independence bit would route
+// legacy frames through the concurrent pipeline, whose end-of-stream handling is written for frames with an end mark.)
+func ruleLegacyDescriptor(c *Check, p *Program, rule string) {
+	fn := findFn(c, p, rule, "internal/lz4stream", "FrameDescriptor.initR")
+	if fn == nil {
+		return
+	}
+	var bad []string
+	n := 0
+	for _, g := range deepFuncs(fn, 1) {
+		for _, ci := range callsIn(g) {
+			f := staticCallee(ci)
+			if f == nil || recvTypeName(f) != "DescriptorFlags" || !strings.HasSuffix(f.Name(), "Set") {
+				continue
+			}
+			if !hasAtom(atomsOfBlock(ci.Block()), "legacy", "", true) {
+				continue
+			}
+			n++
+			if f.Name() != "BlockSizeIndexSet" {
+				bad = append(bad, f.Name()+" at "+p.InstrPos(ci))
+			}
+		}
+	}
+	c.Cond(len(bad) == 0, rule, "initR#legacy-descriptor-declares-only-block-size", p.Pos(fn.Pos()), "for a legacy frame the parser builds a descriptor that declares the 8 MiB block size and nothing else", fmt.Sprintf("%d setter call(s) in the legacy branch, all BlockSizeIndexSet", n), "the legacy branch also calls "+strings.Join(bad, ", ")+": legacy frames have no such feature; an independence bit sends them through the concurrent pipeline")
+}
+
+// R09.15 / R18.12: SizeOption behaves alike for every object it applies to: in each arm of its type switch the
+// Size flag is set from `size > 0` and the content size is stored, neither under a condition on the size
+// (SizeOption(0) clears a size announced earlier; the descriptor survives Reset).
+func ruleSizeOptionArms(c *Check, p *Program, rule string) {
+	n := 0
+	for _, fn := range moduleFuncs(p, pkgRoot) {
+		if fn.Parent() == nil || fn.Parent().Name() != "SizeOption" {
+			continue
+		}
+		var sizePrm ssa.Value
+		for _, fv := range fn.FreeVars {
+			sizePrm = fv
+		}
+		onSize := func(b *ssa.BasicBlock) bool {
+			for _, a := range atomsOfBlockLocal(b) {
+				if a.Kind != "cmp" {
+					continue
+				}
+				if bo, ok := a.V.(*ssa.BinOp); ok {
+					for _, o := range []ssa.Value{bo.X, bo.Y} {
+						if sizePrm != nil && (o == sizePrm || derivesFromValue(o, sizePrm)) {
+							return true
+						}
+					}
+				}
+			}
+			return false
+		}
+		allInstrs(fn, func(in ssa.Instruction) {
+			switch x := in.(type) {
+			case *ssa.Store:
+				if lastField(x.Addr) == "FrameDescriptor.ContentSize" {
+					n++
+					c.Sites++
+					c.Cond(!onSize(in.Block()), rule, "SizeOption#unconditional-store", p.InstrPos(in), "the content size is stored whatever its value (0 clears an earlier announcement)", "no comparison of the size governs the store", "the store is skipped for some sizes: a size applied earlier (the descriptor survives Reset) stays in the header of the next frame")
+				}
+			case ssa.CallInstruction:
+				if calleeIs(x, pkgStream, "DescriptorFlags.SizeSet") {
+					n++
+					c.Sites++
+					arg := x.Common().Args[1]
+					fromCmp := false
+					if bo, ok := arg.(*ssa.BinOp); ok && (bo.Op == token.GTR || bo.Op == token.NEQ || bo.Op == token.LSS) {
+						fromCmp = true
+					}
+					c.Cond(!onSize(in.Block()) && fromCmp, rule, "SizeOption#flag-from-size", p.InstrPos(in), "the Size flag is computed from the size (size > 0) on every application", "SizeSet(size > 0), not under a condition on the size", "the flag is not recomputed for every size: SizeOption(0) no longer clears it")
+				}
+			}
+		})
+	}
+	c.Cond(n >= 4, rule, "SizeOption#arms", "", "the arms of SizeOption were found (Writer and CompressingReader: flag and size each)", fmt.Sprintf("%d sites", n), fmt.Sprintf("only %d flag/size sites found in SizeOption (expected 4)", n))
+}
+
+// R08.14: the concurrency stored by ConcurrencyOption is at least 1: a value of 0 selects the concurrent code paths
+// (the test is num == 1) with a queue of capacity 0 that is never allocated, and the first block blocks forever.
+func ruleConcurrencyAtLeastOne(c *Check, p *Program, rule string) {
+	fn := findFn(c, p, rule, "", "ConcurrencyOption")
+	if fn == nil {
+		return
+	}
+	prm := fn.Params[0]
+	// the parameter may live in a cell (it is reassigned and captured): loads in the entry block that follow the
+	// initial store of the parameter stand for the parameter
+	alias := func(v ssa.Value) bool {
+		v = stripSameWidth(v)
+		if v == ssa.Value(prm) {
+			return true
+		}
+		if ld, ok := v.(*ssa.UnOp); ok && ld.Op == token.MUL && ld.Block() == fn.Blocks[0] {
+			if al, isAl := ld.X.(*ssa.Alloc); isAl {
+				var last ssa.Value
+				for _, in := range fn.Blocks[0].Instrs {
+					if in == ssa.Instruction(ld) {
+						break
+					}
+					if st, isS := in.(*ssa.Store); isS && st.Addr == ssa.Value(al) {
+						last = st.Val
+					}
+				}
+				return last == ssa.Value(prm)
+			}
+		}
+		return false
+	}
+	sets, perEdge := valueSetsFull(fn, alias, fn.Blocks[0], 64)
+	// the value captured by the closure: the parameter itself or a phi of it and the GOMAXPROCS result
+	var captured ssa.Value
+	var capBlk *ssa.BasicBlock
+	allInstrs(fn, func(in ssa.Instruction) {
+		if mc, ok := in.(*ssa.MakeClosure); ok && len(mc.Bindings) > 0 {
+			captured, capBlk = mc.Bindings[0], in.Block()
+		}
+	})
+	okV, why := false, "the closure does not capture the (normalised) argument"
+	positive := func(s vset) bool {
+		// int64 seen as uint64: [1, 2^63-1]
+		for _, iv := range s {
+			if iv.lo == 0 || iv.hi > 1<<63-1 {
+				return false
+			}
+		}
+		return true
+	}
+	var evalV func(v ssa.Value, s vset, depth int) bool
+	evalV = func(v ssa.Value, s vset, depth int) bool {
+		if depth > 4 {
+			return false
+		}
+		switch x := v.(type) {
+		case *ssa.Parameter:
+			return x == prm && positive(s)
+		case *ssa.Call:
+			return calleeIs(x, "runtime", "GOMAXPROCS")
+		case *ssa.Phi:
+			for i, e := range x.Edges {
+				if !evalV(e, perEdge[cfgEdge{x.Block().Preds[i], x.Block()}], depth+1) {
+					return false
+				}
+			}
+			return true
+		case *ssa.UnOp:
+			// a local cell (the parameter is reassigned): every store must be fine in its own block
+			if al, ok := x.X.(*ssa.Alloc); ok && x.Op == token.MUL {
+				all := true
+				for _, st := range storesTo(al) {
+					if !evalV(st.Val, sets[st.Block()], depth+1) {
+						all = false
+					}
+				}
+				return all
+			}
+		case *ssa.Alloc:
+			// the cell as seen at the closure: per incoming edge, the last store on the way
+			all := true
+			lastStore := func(b *ssa.BasicBlock) ssa.Value {
+				for hops := 0; b != nil && hops < 8; hops++ {
+					var last ssa.Value
+					for _, in := range b.Instrs {
+						if st, isS := in.(*ssa.Store); isS && st.Addr == ssa.Value(x) {
+							last = st.Val
+						}
+					}
+					if last != nil {
+						return last
+					}
+					if len(b.Preds) != 1 {
+						return nil
+					}
+					b = b.Preds[0]
+				}
+				return nil
+			}
+			if v0 := lastStore(capBlk); v0 != nil && len(capBlk.Preds) == 0 {
+				return evalV(v0, s, depth+1)
+			}
+			for _, pr := range capBlk.Preds {
+				v0 := lastStore(pr)
+				if v0 == nil {
+					all = false
+					continue
+				}
+				if v0 == ssa.Value(prm) {
+					// the argument itself survives on this edge: the branch taken must say it is positive
+					// (a signed comparison: n <= 0 / n < 1 false, n > 0 / n >= 1 true)
+					if !edgeSaysPositive(pr, capBlk, alias) {
+						all = false
+					}
+					continue
+				}
+				if !evalV(v0, perEdge[cfgEdge{pr, capBlk}], depth+1) {
+					all = false
+				}
+			}
+			return all && len(capBlk.Preds) > 0
+		}
+		return false
+	}
+	if captured != nil {
+		okV = evalV(captured, sets[capBlk], 0)
+		why = "the captured value may be 0 or negative for some argument: num = 0 takes the concurrent paths with an unallocated queue (every Write blocks forever)"
+	}
+	c.Cond(okV, rule, "ConcurrencyOption#at-least-one", p.Pos(fn.Pos()), "the concurrency handed to the Writer/Reader is at least 1 (non-positive arguments are replaced by GOMAXPROCS)", "argument kept only when >= 1, otherwise runtime.GOMAXPROCS(0)", why)
+}
+
+// edgeSaysPositive: the branch pred -> blk is taken only when the aliased signed integer is >= 1.
+func edgeSaysPositive(pred, blk *ssa.BasicBlock, alias func(ssa.Value) bool) bool {
+	ifi, ok := pred.Instrs[len(pred.Instrs)-1].(*ssa.If)
+	if !ok {
+		return false
+	}
+	val := pred.Succs[0] == blk
+	if pred.Succs[0] == blk && pred.Succs[1] == blk {
+		return false
+	}
+	cond := ifi.Cond
+	for {
+		if u, isU := cond.(*ssa.UnOp); isU && u.Op == token.NOT {
+			cond, val = u.X, !val
+			continue
+		}
+		break
+	}
+	bo, ok := cond.(*ssa.BinOp)
+	if !ok {
+		return false
+	}
+	op, x, y := bo.Op, bo.X, bo.Y
+	if _, isK := constUint(x); isK {
+		x, y = y, x
+		switch op {
+		case token.LSS:
+			op = token.GTR
+		case token.LEQ:
+			op = token.GEQ
+		case token.GTR:
+			op = token.LSS
+		case token.GEQ:
+			op = token.LEQ
+		}
+	}
+	k, isK := constUint(y)
+	if !isK || !alias(x) {
+		return false
+	}
+	if !val {
+		switch op {
+		case token.LSS:
+			op = token.GEQ
+		case token.LEQ:
+			op = token.GTR
+		case token.GTR:
+			op = token.LEQ
+		case token.GEQ:
+			op = token.LSS
+		default:
+			return false
+		}
+	}
+	switch {
+	case op == token.GTR && k < 1<<62, op == token.GEQ && k >= 1 && k < 1<<62:
+		return true
+	}
+	return false
+}
+
+// R10.7 / R11.10: no count is reported together with an error. The block compressors turn an index panic (destination
+// too small) into an error with a deferred recover; the handler only sets the error, so the count that reaches the
+// caller is whatever the count result holds at the moment of the panic. It must therefore not be a working variable:
+// the count result is written only as part of a return statement. (The frame writer uses the count without looking at
+// the error.)
+func ruleCountZeroOnError(c *Check, p *Program, rule string, names ...string) {
+	for _, name := range names {
+		fn := findFn(c, p, rule, "internal/lz4block", name)
+		if fn == nil {
+			continue
+		}
+		recovers := false
+		allInstrs(fn, func(in ssa.Instruction) {
+			if d, ok := in.(*ssa.Defer); ok {
+				var callee *ssa.Function
+				if mc, isMC := d.Call.Value.(*ssa.MakeClosure); isMC {
+					callee, _ = mc.Fn.(*ssa.Function)
+				} else {
+					callee = d.Call.StaticCallee()
+				}
+				if callee != nil {
+					for _, f := range withAnon(callee) {
+						allInstrs(f, func(j ssa.Instruction) {
+							if _, isRec := isBuiltinCall(j, "recover"); isRec {
+								recovers = true
+							}
+						})
+					}
+				}
+			}
+		})
+		if !recovers {
+			c.OK(rule, name+"#count-zero-on-error", p.Pos(fn.Pos()), "no count is reported together with a recovered panic", "the function installs no recovering handler: a panic is not turned into a result", false)
+			continue
+		}
+		// the cell of the count result: what the return instructions load for result 0
+		var cell *ssa.Alloc
+		allInstrs(fn, func(in ssa.Instruction) {
+			if r, ok := in.(*ssa.Return); ok && len(r.Results) >= 1 {
+				if ld, isLd := r.Results[0].(*ssa.UnOp); isLd && ld.Op == token.MUL {
+					if al, isAl := ld.X.(*ssa.Alloc); isAl {
+						cell = al
+					}
+				}
+			}
+		})
+		if cell == nil {
+			c.OK(rule, name+"#count-zero-on-error", p.Pos(fn.Pos()), "no count is reported together with a recovered panic", "the count result is not a variable: it is zero unless a return statement sets it", true)
+			continue
+		}
+		bad := ""
+		for _, st := range storesTo(cell) {
+			// part of a return statement: the block runs the deferred calls and returns
+			isRet := false
+			for _, in := range st.Block().Instrs {
+				if _, ok := in.(*ssa.Return); ok {
+					isRet = true
+				}
+			}
+			if k, isK := constUint(st.Val); isK && k == 0 {
+				continue
+			}
+			if !isRet {
+				bad = p.InstrPos(st)
+			}
+		}
+		c.Sites++
+		c.Cond(bad == "", rule, name+"#count-zero-on-error", p.Pos(fn.Pos()), "the count result is written only by return statements, so a panic recovered into an error leaves it at zero (callers use the count without looking at the error)", "stores to the count result occur only in returning blocks", "the count result is used as a working variable (written at "+bad+"): after a recovered panic a positive count is returned together with the error, and the frame writer emits that many bytes of an incomplete block")
+	}
+}
+
+// R11.11: the package-level entry points (CompressBlock, CompressBlockHC: a pooled compressor) return exactly what
+// the compressor method returns: no result of their own.
+func ruleWrapperReturnsMethodResult(c *Check, p *Program, rule string) {
+	for _, w := range []struct{ name, method string }{{"CompressBlock", "Compressor.CompressBlock"}, {"CompressBlockHC", "CompressorHC.CompressBlock"}} {
+		fn := findFn(c, p, rule, "internal/lz4block", w.name)
+		if fn == nil {
+			continue
+		}
+		var call *ssa.Call
+		for _, ci := range callsInDeep(fn) {
+			if cc, ok := ci.(*ssa.Call); ok && calleeIs(ci, pkgBlock, w.method) {
+				call = cc
+			}
+		}
+		if call == nil {
+			c.Fail(rule, w.name+"#forwards", p.Pos(fn.Pos()), "the entry point runs the compressor method", "no call of "+w.method)
+			continue
+		}
+		bad := ""
+		allInstrs(fn, func(in ssa.Instruction) {
+			r, ok := in.(*ssa.Return)
+			if !ok {
+				return
+			}
+			for _, res := range r.Results {
+				if !derivesFromValue(res, call) {
+					bad = p.InstrPos(in)
+				}
+			}
+		})
+		c.Sites++
+		c.Cond(bad == "", rule, w.name+"#returns-method-result", p.InstrPos(call), "every result of the entry point is the compressor method's result (the contract proved for the method holds for the entry point)", "all returns forward the call's results", "the return at "+bad+" yields a value of its own: the destination contract (0 only when the block does not fit) is bypassed for some inputs")
+	}
+}
+
+// walkPathsPhi visits every acyclic path of fn (each block at most once per path) and calls visit for every
+// instruction with the phi choices of that path.
+func walkPathsPhi(fn *ssa.Function, visit func(in ssa.Instruction, phis map[*ssa.Phi]ssa.Value)) {
+	if len(fn.Blocks) == 0 || len(fn.Blocks) > 60 {
+		return
+	}
+	budget := 20000
+	var walk func(b, from *ssa.BasicBlock, phis map[*ssa.Phi]ssa.Value, seen map[*ssa.BasicBlock]bool)
+	walk = func(b, from *ssa.BasicBlock, phis map[*ssa.Phi]ssa.Value, seen map[*ssa.BasicBlock]bool) {
+		if seen[b] || budget <= 0 {
+			return
+		}
+		budget--
+		seen[b] = true
+		defer delete(seen, b)
+		if from != nil {
+			np := map[*ssa.Phi]ssa.Value{}
+			for k, v := range phis {
+				np[k] = v
+			}
+			for pi, pr := range b.Preds {
+				if pr != from {
+					continue
+				}
+				for _, in := range b.Instrs {
+					ph, isPhi := in.(*ssa.Phi)
+					if !isPhi {
+						break
+					}
+					np[ph] = ph.Edges[pi]
+				}
+				break
+			}
+			phis = np
+		}
+		for _, in := range b.Instrs {
+			visit(in, phis)
+		}
+		// a branch on a boolean phi whose value this path has fixed takes only the matching side
+		if ifi, ok := b.Instrs[len(b.Instrs)-1].(*ssa.If); ok && len(b.Succs) == 2 {
+			cond, neg := ifi.Cond, false
+			for i := 0; i < 4; i++ {
+				if u, isU := cond.(*ssa.UnOp); isU && u.Op == token.NOT {
+					cond, neg = u.X, !neg
+					continue
+				}
+				if ph, isPhi := cond.(*ssa.Phi); isPhi {
+					if e, has := phis[ph]; has {
+						cond = e
+						continue
+					}
+				}
+				break
+			}
+			if k, isK := cond.(*ssa.Const); isK && k.Value != nil && k.Value.Kind() == constant.Bool {
+				v := constant.BoolVal(k.Value) != neg
+				if v {
+					walk(b.Succs[0], b, phis, seen)
+				} else {
+					walk(b.Succs[1], b, phis, seen)
+				}
+				return
+			}
+		}
+		for _, su := range b.Succs {
+			walk(su, b, phis, seen)
+		}
+	}
+	walk(fn.Blocks[0], nil, map[*ssa.Phi]ssa.Value{}, map[*ssa.BasicBlock]bool{})
+}
+
+// R02.15: the Reader's own block buffer never becomes the caller's buffer. Reader.read decodes either into r.data
+// or, when the caller's buffer is large enough, directly into that; only in the first case may the result be kept in
+// r.data (the next block is decoded into r.data[:cap], which would overwrite bytes already delivered).
+func ruleOwnBufferNotAliased(c *Check, p *Program, rule string) {
+	fn := findFn(c, p, rule, "", "Reader.read")
+	if fn == nil {
+		return
+	}
+	fromParam := func(v ssa.Value, phis map[*ssa.Phi]ssa.Value) (bool, bool) { // (is caller's buffer, resolved)
+		for i := 0; i < 8; i++ {
+			switch x := v.(type) {
+			case *ssa.Parameter:
+				return isSliceType(x.Type()), true
+			case *ssa.Slice:
+				v = x.X
+			case *ssa.Phi:
+				e, ok := phis[x]
+				if !ok {
+					return false, false
+				}
+				v = e
+			case *ssa.Extract:
+				call, isC := x.Tuple.(*ssa.Call)
+				if !isC || x.Index != 0 || !calleeIs(call, pkgStream, "FrameDataBlock.Uncompress") || len(call.Call.Args) < 3 {
+					return false, false
+				}
+				v = call.Call.Args[2]
+			case *ssa.UnOp:
+				if x.Op == token.MUL && lastField(x.X) == "Reader.data" {
+					return false, true
+				}
+				return false, false
+			default:
+				return false, false
+			}
+		}
+		return false, false
+	}
+	bad := ""
+	n := 0
+	walkPathsPhi(fn, func(in ssa.Instruction, phis map[*ssa.Phi]ssa.Value) {
+		st, ok := in.(*ssa.Store)
+		if !ok || lastField(st.Addr) != "Reader.data" {
+			return
+		}
+		n++
+		if alias, resolved := fromParam(st.Val, phis); resolved && alias {
+			bad = p.InstrPos(st)
+		}
+	})
+	c.Sites++
+	c.Cond(bad == "", rule, "Reader.read#own-buffer-not-aliased", p.Pos(fn.Pos()), "r.data is never assigned (a slice of) the caller's buffer: the next block is decoded into r.data[:cap(r.data)]", fmt.Sprintf("%d store(s) to r.data examined along all paths", n), "on a path through the direct-decode branch the store at "+bad+" makes the caller's buffer the Reader's block buffer: the next buffered block is decoded over bytes already returned to the caller")
+}
+
+// R07.9: numbers read from the input do not size anything outside the module. An integer that derives from a header
+// or block field (content size, block size word, checksums) is passed to a function outside the module only where
+// that is known to allocate nothing of that size (io.CopyN to Discard, fmt, encoding/binary, errors).
+func ruleInputSizedExternalCalls(c *Check, p *Program, rule string) {
+	reach := readerEntryReach(p)
+	var taintedFn func(f *ssa.Function, depth int) bool
+	tainted := func(v ssa.Value) (bool, string) {
+		bad, why := false, ""
+		walkBack(v, true, func(x ssa.Value) bool {
+			if call, ok := x.(*ssa.Call); ok {
+				f := staticCallee(call)
+				if f != nil && (isSourceRead32(f) || (f.Pkg != nil && f.Pkg.Pkg.Path() == "encoding/binary")) {
+					bad, why = true, "derives from "+f.Name()+"()"
+				}
+				if f != nil && inModule(f) && taintedFn(f, 2) {
+					bad, why = true, "derives from "+shortFn(f)+"(), which returns a field read from the input"
+				}
+				return false
+			}
+			if lf := loadField(x); lf == "FrameDataBlock.Size" || lf == "FrameDescriptor.ContentSize" || lf == "Frame.Checksum" || lf == "FrameDataBlock.Checksum" {
+				bad, why = true, "derives from "+lf
+			}
+			return !bad
+		})
+		return bad, why
+	}
+	memo := map[*ssa.Function]int{}
+	taintedFn = func(f *ssa.Function, depth int) bool {
+		if depth <= 0 || len(f.Blocks) == 0 {
+			return false
+		}
+		if v, ok := memo[f]; ok {
+			return v == 1
+		}
+		memo[f] = 2
+		res := false
+		allInstrs(f, func(in ssa.Instruction) {
+			r, ok := in.(*ssa.Return)
+			if !ok {
+				return
+			}
+			for _, x := range r.Results {
+				if _, _, isI := isIntType(x.Type()); !isI {
+					continue
+				}
+				hit := false
+				walkBack(x, true, func(y ssa.Value) bool {
+					if lf := loadField(y); lf == "FrameDescriptor.ContentSize" || lf == "FrameDataBlock.Size" {
+						hit = true
+					}
+					if call, isC := y.(*ssa.Call); isC {
+						if g := staticCallee(call); g != nil && inModule(g) && taintedFn(g, depth-1) {
+							hit = true
+						}
+						return false
+					}
+					return !hit
+				})
+				if hit {
+					res = true
+				}
+			}
+		})
+		if res {
+			memo[f] = 1
+		} else {
+			memo[f] = 0
+		}
+		return res
+	}
+	allowed := func(ci ssa.CallInstruction) bool {
+		f := staticCallee(ci)
+		if f == nil || f.Pkg == nil {
+			return false
+		}
+		switch f.Pkg.Pkg.Path() {
+		case "fmt", "encoding/binary", "errors", "math/bits":
+			return true
+		case "io":
+			return f.Name() == "CopyN" || f.Name() == "ReadFull"
+		}
+		return false
+	}
+	var fs []*ssa.Function
+	for f := range reach {
+		fs = append(fs, f)
+	}
+	sort.Slice(fs, func(i, j int) bool { return fs[i].Pos() < fs[j].Pos() })
+	n := 0
+	for _, fn := range fs {
+		for _, ci := range callsIn(fn) {
+			f := staticCallee(ci)
+			if f != nil && inModule(f) {
+				continue
+			}
+			if _, isB := ci.Common().Value.(*ssa.Builtin); isB {
+				continue // make / append are judged by R07.4
+			}
+			for _, a := range ci.Common().Args {
+				if _, _, isI := isIntType(a.Type()); !isI {
+					continue
+				}
+				if t, why := tainted(a); t {
+					n++
+					c.Sites++
+					callee := "a dynamic call"
+					if f != nil {
+						callee = shortFn(f)
+					} else if ci.Common().IsInvoke() {
+						callee = "method " + ci.Common().Method.Name()
+					}
+					c.Cond(allowed(ci), rule, shortFn(fn)+"#input-number-to:"+callee, p.InstrPos(ci), "a number read from the input is handed outside the module only to functions known not to allocate by it", callee, "the argument "+why+" and is passed to "+callee+": the input decides how much that call allocates or how long it runs (a 64-bit size field costs the attacker eight bytes)")
+				}
+			}
+		}
+	}
+	c.Cond(n >= 1, rule, "reader#input-numbers-leaving-the-module", "", "call sites that pass input-derived numbers outside the module were found (the skippable-frame length)", fmt.Sprintf("%d sites", n), "no such call site found (expected io.CopyN for skippable frames)")
 }
